@@ -93,8 +93,17 @@ func (op ValueOp) Run(args [][]byte) ([][]byte, error) {
 		return nil, fmt.Errorf("leaf hash mismatch: want %X got %X", op.Proof.LeafHash, kvhash)
 	}
 
+	// ComputeRootHash returns nil when index, total and aunts do not describe a
+	// path of a tree. That must not be handed on as a root: compared with
+	// bytes.Equal it would match an empty expected root.
+	rootHash := op.Proof.ComputeRootHash()
+	if rootHash == nil {
+		return nil, fmt.Errorf("invalid proof: index %d, total %d and %d aunts do not lead to a root hash",
+			op.Proof.Index, op.Proof.Total, len(op.Proof.Aunts))
+	}
+
 	return [][]byte{
-		op.Proof.ComputeRootHash(),
+		rootHash,
 	}, nil
 }
 
